@@ -33,7 +33,8 @@ TRUSTED = ['A1 float == real; A2 object arrays == float arrays', 'pinv / factori
 ASSUMPTIONS = ['steps positive; f twice differentiable; step ratio 1/q with q in (0,1)']
 NOT_DECIDED = ['residual error powers of the Hessian quotients on non-quadratic f (only the Richardson (order, step) pairing is '
                'checked); accuracy envelope; agreement of Hessian and Hessdiag "within their error estimates" for nonlinear f']
-BOUNDED = ['integer-x: integer-typed x (3 concrete x, 6 methods, 2 classes) compared with float x -- executed with the real numpy, not proved',
+BOUNDED = ['default-steps-concrete: Hessian and Hessdiag with the default step generators, 6 methods x 1..3 variables x {quadratic, exp(w.x)+x.x} = 36 concrete cases in floating point -- executed, not proved',
+           'integer-x: integer-typed x (3 concrete x, 6 methods, 2 classes) compared with float x -- executed with the real numpy, not proved',
            'dimension enumerated: quick 1..3, thorough 1..6 (the property\'s range)']
 QUANTIFIED = 'c, g, Q, x, per-coordinate steps h_j, q, and all values of the uninterpreted f: universally quantified'
 
@@ -58,6 +59,10 @@ def groups(tier):
     for klass in ('Hessian', 'Hessdiag'):
         out.append(('call[%s]' % klass, ('call', klass, tier)))
     out.append(('integer-x', ('intx',)))
+    # the call groups run with a contract stub of the step generator; here everything is real: the default generators, their default
+    # scale table (discharged against its documented table, generator shared with C10) and the six methods on concrete functions
+    out.append(('contract:default-scale', ('dep', 'C10', 'run_scale', (tier,), {})))
+    out.append(('default-steps-concrete', ('dconc',)))
     return out
 
 
@@ -403,7 +408,20 @@ def run_intx():
     return {}
 
 
+def run_dconc():
+    import numdifftools as nd
+    from ndvc.concrete import hessian_default_step_cases
+    cnt, bad = hessian_default_step_cases(nd)
+    solve.fact('Hessian-and-Hessdiag-with-their-default-steps:symmetric,quadratic-reproduced,smooth-f-within-1e-5,diagonals-agree[%d cases]' % cnt, not bad, kind='bounded', note=str(bad[:2])[:400])
+    return {}
+
+
 def run_group(args):
+    if args[0] == 'dep':
+        import importlib
+        return getattr(importlib.import_module('props.' + args[1]), args[2])(*args[3], **args[4])
+    if args[0] == 'dconc':
+        return run_dconc()
     if args[0] == 'intx':
         return run_intx()
     if args[0] == 'quad':
@@ -422,6 +440,10 @@ def run_group(args):
 def replay_case(ob):
     import re
     nm = ob['name']
+    if nm.startswith('default-steps-concrete/') or nm.startswith('contract:default-scale/'):
+        return dict(kind='C04.dconc')
+    if nm.startswith('hessian-rule/'):
+        return dict(kind='C04.hrule')
     mm = re.search(r'integer-x/(\w+),(\w+):', nm)
     if mm:
         return dict(kind='common.intx', klass=mm.group(1), method=mm.group(2), f='poly3')
